@@ -30,7 +30,7 @@ prop("C02",
      assumptions=["simdutf8 decides UTF-8 validity (modelled by Spec.Ref.utf8_valid; compared on every case)", "completeness of the container skipper is validated, not yet proved (skip_value_sound is proved)"])
 
 prop("C10", funcs=True,
-     rule="well-formed duplicate-free generated documents (depth<=4, strings with escapes/multibyte/structural bytes, leading pad 0..69 to move the 64-byte blocks) x up to 6 valid paths + perturbed paths x 15 lookup variants (checked/unchecked x 5 carriers, LazyValue/OwnedLazyValue/Value pointer, Value::get chain); plus block-edge documents with quotes/backslashes/brackets inside strings; non-trivial = non-empty path",
+     rule="well-formed generated documents (duplicate-free, plus a stream that repeats member names: every variant answers with the first occurrence) (depth<=4, strings with escapes/multibyte/structural bytes, leading pad 0..69 to move the 64-byte blocks) x up to 6 valid paths + perturbed paths x 15 lookup variants (checked/unchecked x 5 carriers, LazyValue/OwnedLazyValue/Value pointer, Value::get chain); plus block-edge documents with quotes/backslashes/brackets inside strings; non-trivial = non-empty path",
      assumptions=["the 64-byte bitmap bookkeeping of skip_container_loop is tied to the scalar counting model by the correspondence (unit hooks + unchecked API), not by proof"])
 prop("C11", unit_ops={"manyrec"},
      rule="generated documents x 1..6 paths (shared prefixes, repeats, perturbed) filtered for shape consistency x {get_many, get_many_unchecked}; the implementation's slot vector is judged by the extracted reference lookup (verdict op); the same over documents that repeat member names (first occurrence wins, as in get; F37); for path sets of member names the search model itself (Model/ManySeen.rec2 over the tree Model/ManyBuild.build makes of the paths: counter, early exits, list of walked nodes) is run on the reference parse and must return the very slot vector get_many / get_many_unchecked returned, or fail where they fail (op manyrec); (schema, document) pairs against the reference merge",
@@ -39,7 +39,7 @@ prop("C12",
      rule="generated documents (arrays/objects of width 0..6, nested, escaped keys, whitespace), 1/5 with trailing bytes, 1/3 mutated x {to_array_iter, to_object_iter} x {&[u8], &FastStr, &Bytes} + unchecked iterators and LazyValue::into_*_iter on the well-formed ones; each iterator polled 3 times past its end; transcript (spans, decoded keys) compared with the reference iterator",
      assumptions=["invalid UTF-8 anywhere in the input is reported by the first poll (as the implementation does)"])
 prop("C14",
-     rule="generated documents mutated once (9 mutation kinds) x up to 5 paths x 6 checked get carriers, every prefix of small documents, get_many on the malformed stream, checked iterators; each returned span compared with the reference get on arbitrary bytes (Spec.Ref.ref_get = decision procedure of WfPrefix)",
+     rule="generated documents (one in three may repeat member names) mutated once (9 mutation kinds) x up to 5 paths x 6 checked get carriers, every prefix of small documents, get_many on the malformed stream, checked iterators; each returned span compared with the reference get on arbitrary bytes (Spec.Ref.ref_get = decision procedure of WfPrefix)",
      assumptions=[])
 
 prop("C09",
@@ -56,7 +56,7 @@ prop("C06",
      rule="three builds of the harness (default, sort_keys, arbitrary_precision): generated documents (duplicates allowed): to_string / to_string_pretty / Display / to_vec of the parsed DOM; the text must denote the same tree as the source (dump equality incl. float bits, order, duplicates), be exactly the model's canonical compact / pretty form of its own parse (format_string spec escaper, separators, indentation), re-serialize to itself; raw-number mode reproduces every literal verbatim",
      assumptions=["ryu/itoa print a number that parses back to the same value (checked per case through the dump, not proved)"])
 prop("C13",
-     rule="generated duplicate-free documents x up to 5 sub-values reached by get, plus every scalar literal directly: accessor string (type, bool, number class+bits, decoded string, raw number, is_* flags) of LazyValue (from get / serde / clone) and OwnedLazyValue (from LazyValue / serde / clone / to_lazyvalue) compared with the accessors of the reference parse of the raw text; verbatim serialization; Value::try_from; owned-lazy views walked; one mutation (push / replace / take) of an owned-lazy array with the clone taken before it",
+     rule="generated documents (one in three may repeat member names) x up to 5 sub-values reached by get, plus every scalar literal directly: accessor string (type, bool, number class+bits, decoded string, raw number, is_* flags) of LazyValue (from get / serde / clone) and OwnedLazyValue (from LazyValue / serde / clone / to_lazyvalue) compared with the accessors of the reference parse of the raw text; verbatim serialization; Value::try_from; owned-lazy views walked; one mutation (push / replace / take) of an owned-lazy array with the clone taken before it",
      assumptions=[])
 
 prop("C07",
